@@ -5,7 +5,7 @@
 set -eu
 VERIF=$(cd "$(dirname "$0")/.." && pwd)
 REF=${1:-e695936}
-N=${2:-46}
+N=${2:-60}
 WT=/tmp/wt/golden-ref
 rm -rf "$WT"
 git -C /repo worktree prune
